@@ -519,9 +519,11 @@ func (lc *lockCtx) flow(fn *ssa.Function) {
 						}
 						// token hand-off (named exception): in drainBuffers the executor task that wins the
 						// token passed in by scheduleDrainBuffers runs with the scheduler's lock
-						if !lc.plain && si == trueIdx && cname(fn) == "drainBuffers" && isStdMethod(call, "sync/atomic", "Uint32", "CompareAndSwap") {
-							if _, isParam := recvValue(call).(*ssa.Parameter); isParam {
-								out = true
+						if !lc.plain && si == trueIdx && cname(fn) == "drainBuffers" {
+							if tok, isClaim := tokenClaim(call); isClaim {
+								if _, isParam := rootOf(tok).(*ssa.Parameter); isParam {
+									out = true
+								}
 							}
 						}
 					}
